@@ -696,6 +696,15 @@ func (c *Client) Start() (addr net.Addr, err error) {
 		}
 	}
 
+	// From here on the client's own state is set up for the launch, so a
+	// client that has launched before must not get past this point: Kill
+	// relies on that state (e.g. the socket directory) to clean up after the
+	// launch that did happen.
+	if c.launched {
+		return nil, errors.New("plugin was already started once and cannot be started again")
+	}
+	c.launched = true
+
 	if c.config.UnixSocketConfig != nil {
 		c.unixSocketCfg = *c.config.UnixSocketConfig
 	}
@@ -703,11 +712,6 @@ func (c *Client) Start() (addr net.Addr, err error) {
 	if c.unixSocketCfg.Group != "" {
 		cmd.Env = append(cmd.Env, fmt.Sprintf("%s=%s", EnvUnixSocketGroup, c.unixSocketCfg.Group))
 	}
-
-	if c.launched {
-		return nil, errors.New("plugin was already started once and cannot be started again")
-	}
-	c.launched = true
 
 	var runner runner.Runner
 	switch {
